@@ -16,10 +16,12 @@ mkdir -p crates/$CRATE/tests; cp "$SD/demo.rs" crates/$CRATE/tests/seeded_demo.r
 cargo test --offline -p $CRATE ${SEED_FEATURES:-} --test seeded_demo >/tmp/seed_demo_with.log 2>&1 < /dev/null
 DEMO_FAIL_WITH=$(grep -E "^test result" /tmp/seed_demo_with.log | head -1)
 RESULTS=""
+EVSAVE="$(mktemp -d)"; cp -a /verif/evidence/. "$EVSAVE"/   # seeded trials must not leave their evidence behind
 for P in "$@"; do
   ( cd /verif && ./check $P --tier quick > /tmp/seed_check_$P.log 2>&1 ); RC=$?
   RESULTS="$RESULTS $P=exit$RC"
 done
+cp -a "$EVSAVE"/. /verif/evidence/; rm -rf "$EVSAVE"
 git checkout -q -- .
 mkdir -p crates/$CRATE/tests; cp "$SD/demo.rs" crates/$CRATE/tests/seeded_demo.rs
 cargo test --offline -p $CRATE ${SEED_FEATURES:-} --test seeded_demo >/tmp/seed_demo_without.log 2>&1 < /dev/null
